@@ -581,6 +581,11 @@ pub fn roots(tier: Tier) -> Vec<State> {
     // a few series with NaN ordinates (for remove_nan) and an offset, uneven one
     out.push(State { xs: vec![0.0, 1.0, 2.5], ys: vec![1.0, f64::NAN, 2.0] });
     out.push(State { xs: vec![0.0, 1.0, 2.5, 4.0], ys: vec![f64::NAN, 1.0, -1.0, f64::NAN] });
+    // runs of adjacent NaN ordinates: every pattern of NaN / finite over five knots
+    for mask in 1u32..31 {
+        let ys: Vec<f64> = (0..5).map(|i| if mask & (1 << i) != 0 { f64::NAN } else { 0.5 * i as f64 - 1.0 }).collect();
+        out.push(State { xs: vec![0.0, 1.0, 2.5, 4.0, 4.5], ys });
+    }
     if tier == Tier::Thorough {
         out.push(State { xs: vec![-3.0, -2.5, 0.125, 7.0, 7.5], ys: vec![0.5, -0.5, 0.0, 0.0, 3.0] });
     }
